@@ -42,7 +42,12 @@ class CompactionDriver(ReorgDriver):
                  for hx, b in out.items()}, rows)
 
     def op_snapshot_hist(self, op):
+        if getattr(self, 'skip_rest', False):
+            return
+        self.op_poker(dict(op='poker', on=False))
         self.op_stop(op)
+        self.unclean = False
+        self.hazard_rows_above_prev = getattr(self, 'hazard_rows_above', None)
         self.hist_before, _rows = self.raw_histories()
         self.probe('c14.snapshots')
 
@@ -88,6 +93,8 @@ class CompactionDriver(ReorgDriver):
     def op_compact(self, op):
         """Run the compaction tool on a fresh loop like a separate process would."""
         w = self.w
+        if getattr(self, 'skip_rest', False):
+            return
         if w.server is not None:
             self.op_stop(op)
         sim = w.sim
@@ -109,6 +116,20 @@ class CompactionDriver(ReorgDriver):
                 return True
             return False
         sim.crash_hook = hook
+        ioskip = op.get('ioerr_skip')
+        iostate = dict(hits=0, fired=False)
+
+        def iohook(tag, detail):
+            # one transient disk error (ENOSPC) at the (ioerr_skip+1)-th durable operation of the tool
+            if ioskip is None or iostate['fired']:
+                return False
+            iostate['hits'] += 1
+            if iostate['hits'] > ioskip:
+                iostate['fired'] = True
+                iostate['at'] = (tag, detail)
+                return True
+            return False
+        sim.ioerr_hook = iohook
         mode = op.get('mode', 'tool')
 
         async def inner_loop():
@@ -147,19 +168,30 @@ class CompactionDriver(ReorgDriver):
             outcome = 'assert'
             import traceback
             self.res.notes.append('tool assertion ' + traceback.format_exc()[-1200:].replace(chr(10), ' | '))
+        except OSError as e:
+            if iostate['fired']:
+                outcome = 'ioerror'         # the tool gave up on the disk error: as good as killed
+            else:
+                outcome = 'raised'
+                self.violate('C14', 'tool.raised', f'the compaction tool failed: {e!r}')
         except Exception as e:      # noqa: B902
             outcome = 'raised'
             self.violate('C14', 'tool.raised', f'the compaction tool failed: {e!r}')
         finally:
             sim.crash_hook = None
+            sim.ioerr_hook = None
+            if iostate['fired']:
+                self.probe('c14.io_error_injected')
             sim.dead = True
             try:
                 asyncio.set_event_loop(None)
                 loop.close()
             except Exception:
                 pass
-        if outcome == 'crashed' and state.get('at', ('',))[0] == 'put':
-            # hazard recogniser: killed between the final history batch and set_flush_count
+        if (outcome == 'crashed' and state.get('at', ('',))[0] == 'put') or \
+                (outcome == 'ioerror' and iostate.get('at', ('',))[0] == 'put'):
+            # hazard recogniser: killed (or dying of a disk error) between the final history batch and
+            # set_flush_count
             import ast
             hst = self.w.store.dbs['hist'].get(b'state\0\0')
             ust = self.w.store.dbs['utxo'].get(b'state')
@@ -177,6 +209,8 @@ class CompactionDriver(ReorgDriver):
         """Start the server after a complete or abandoned compaction.  The abandoned-then-keep-
         indexing clause is restricted (by the property) to databases where no script hash has more
         compacted rows than the flush count."""
+        if getattr(self, 'skip_rest', False):
+            return
         st = self.w.store.dbs.get('hist', {}).get(b'state\0\0')
         import ast
         fc = ast.literal_eval(st.decode())['flush_count'] if st else 0
@@ -209,7 +243,7 @@ class CompactionDriver(ReorgDriver):
         p = self.res.probes
         self.res.nontrivial = bool(p.get('c14.history_checks', 0) >= 1 and
                                    (p.get('c14.compact.done') or p.get('c14.compact.crashed')
-                                    or p.get('c14.compact.stopped')))
+                                    or p.get('c14.compact.stopped') or p.get('c14.compact.ioerror')))
 
 
 class CompactionFamily(ReorgFamily):
@@ -260,29 +294,36 @@ class CompactionFamily(ReorgFamily):
                               keep=True),
                          dict(op='poker', on=False, keep=True),
                          dict(op='snapshot_hist_unclean', keep=True)]
-        # the tool, possibly interrupted several times
-        for _ in range(rng.randint(1, 3)):
-            mode = rng.choice(['tool', 'loop', 'loop'])
-            o = dict(op='compact', mode=mode)
-            if mode == 'loop':
-                o['limit'] = rng.choice([1, 1, 40, 400, 8_000_000])
-                if rng.random() < 0.3:
-                    o['stop_after'] = rng.randint(1, 6)
-            if rng.random() < 0.6:
-                o['crash_skip'] = rng.choice([0, 0, 1, 1, 2, 3, 5, 8, 13])
-            plan.append(o)
-        if rng.random() < 0.5:
-            plan.append(dict(op='compact', mode='tool'))       # run to completion
-        plan.append(dict(op='maybe_start'))
-        plan.append(dict(op='sync'))
-        for _ in range(rng.randint(1, 2)):
-            if rng.random() < 0.5:
-                plan.append(dict(op='fork', depth=rng.choice([1, 2, 3]), extra=1, ntx=ntx_list(rng, 3),
-                                 remine=0.5, seed=rng.getrandbits(32)))
-            n = rng.randint(1, 3)
-            plan.append(dict(op='poker', period=(0.01, 0.2), p_full=0.5))
-            plan.append(dict(op='mine', n=n, ntx=ntx_list(rng, n), seed=rng.getrandbits(32)))
+        # one to three rounds of: the tool (possibly interrupted several times, possibly abandoned), then the
+        # server with new blocks and reorganisations on top (stopped cleanly before the next round)
+        rounds = rng.choice([1, 1, 2, 3])
+        for rnd in range(rounds):
+            if rnd:
+                plan.append(dict(op='snapshot_hist', keep=True))
+            for _ in range(rng.randint(1, 3)):
+                mode = rng.choice(['tool', 'loop', 'loop'])
+                o = dict(op='compact', mode=mode)
+                if mode == 'loop':
+                    o['limit'] = rng.choice([1, 1, 40, 400, 8_000_000])
+                    if rng.random() < 0.3:
+                        o['stop_after'] = rng.randint(1, 6)
+                if rng.random() < 0.6:
+                    o['crash_skip'] = rng.choice([0, 0, 1, 1, 2, 3, 5, 8, 13])
+                if rng.random() < 0.25:
+                    o['ioerr_skip'] = rng.choice([0, 0, 1, 1, 2, 3, 5, 8])     # a full disk at one write
+                plan.append(o)
+            if rng.random() < (0.5 if rnd == 0 else 0.8):
+                plan.append(dict(op='compact', mode='tool'))       # run to completion
+            plan.append(dict(op='maybe_start'))
             plan.append(dict(op='sync'))
+            for _ in range(rng.randint(1, 2)):
+                if rng.random() < 0.5:
+                    plan.append(dict(op='fork', depth=rng.choice([1, 2, 3]), extra=1, ntx=ntx_list(rng, 3),
+                                     remine=0.5, seed=rng.getrandbits(32)))
+                n = rng.randint(1, 3)
+                plan.append(dict(op='poker', period=(0.01, 0.2), p_full=0.5))
+                plan.append(dict(op='mine', n=n, ntx=ntx_list(rng, n), seed=rng.getrandbits(32)))
+                plan.append(dict(op='sync'))
         return dict(family='compaction', knobs=k, plan=plan)
 
 
